@@ -45,7 +45,7 @@ GAPS = [1, 1, 1, 2, 2, 3, 7, 100, 1000, 10 ** 6, 2 ** 31, 2 ** 32, 2 ** 40, 2 **
 
 ENUM_ATTRS = ["#[allow(dead_code)]", "#[doc = \"an enum\"]", "/// doc comment on the enum", "#[non_exhaustive]",
               "#[cfg_attr(all(), allow(unused))]", "#[deprecated]", "#[must_use]", "#[doc(hidden)]",
-              "/** block doc */", "#[cfg(all())]", "#[allow(clippy::all)]", "#[rustfmt::skip]"]
+              "/** block doc */", "#[cfg(all())]", "#[allow(clippy::all)]"]
 VARIANT_ATTRS = ["/// doc comment", "#[doc = \"a variant\"]", "#[allow(dead_code)]", "#[cfg(all())]",
                  "#[deprecated]", "#[cfg_attr(all(), doc = \"x\")]", "/** block */", "#[doc(hidden)]",
                  "#[cfg_attr(any(), enum_tools(rename = \"never\"))]", "#[allow(non_camel_case_types)]"]
@@ -376,7 +376,7 @@ def legal_iter_modes(m, with_range, include_match=False):
 
 @st.composite
 def configs(draw, spec, force=(), forbid=(), p_on=0.5, params=True, split=True, modes=None,
-            struct_names=True, fixed_modes=None, iter_match=False):
+            struct_names=True, fixed_modes=None, iter_match=False, p_vis=0.2):
     """A legal configuration for `spec` (see DESIGN 3.5)."""
     m = M.RefEnum(spec)
     chosen = []
@@ -412,7 +412,7 @@ def configs(draw, spec, force=(), forbid=(), p_on=0.5, params=True, split=True, 
                 if nm not in used_names and nm not in E.ALL_FEATURES:
                     used_names.add(nm)
                     ps.append(["name", nm])
-            if chance(draw, 0.2):
+            if p_vis > 0 and chance(draw, p_vis):
                 cands = ["", "pub(crate)", "pub"]
                 if f in ("iter", "names"):
                     cands = [c for c in cands if VIS_RANK[c] <= VIS_RANK.get(enum_vis, 0)]
